@@ -622,8 +622,9 @@ def check_property(prop, tier, seed, replay_path=None, only=None, keep=False, ve
             'wall_s': round(wall, 1),
             'violations': len(violations),
         }
-        os.makedirs(os.path.join(VERIF, 'evidence'), exist_ok=True)
-        json.dump(evidence, open(os.path.join(VERIF, 'evidence', prop.id + '.json'), 'w'), indent=1)
+        EVD = os.environ.get('VF_EVIDENCE_DIR') or os.path.join(VERIF, 'evidence')
+        os.makedirs(EVD, exist_ok=True)
+        json.dump(evidence, open(os.path.join(EVD, prop.id + '.json'), 'w'), indent=1)
         log('[%s] tier=%s queries=%d ok=%d fail=%d inconclusive=%d assertions=%d diff_iter=%d mismatches=%d wall=%.0fs solver=%.0fs peak=%dMB -> exit %d' % (
             prop.id, tier, ev['queries'], ev['queries_ok'], ev['queries_fail'], ev['queries_inconclusive'], ev['obligations'],
             ev['diff_iterations'], ev['diff_mismatches'], wall, ev['solver_wall_s'], ev['peak_rss_mb'], exit_code))
@@ -633,8 +634,9 @@ def check_property(prop, tier, seed, replay_path=None, only=None, keep=False, ve
         evidence = {'property_id': prop.id, 'tier': tier, 'seed': seed, 'level': 'other',
                     'coverage': {'explanation': 'build failed, nothing was checked: ' + str(e)[-1000:], 'evaluations': 0, 'distinct_nontrivial': 0, 'samples': []},
                     'wall_s': round(time.time() - t_start, 1), 'violations': 0}
-        os.makedirs(os.path.join(VERIF, 'evidence'), exist_ok=True)
-        json.dump(evidence, open(os.path.join(VERIF, 'evidence', prop.id + '.json'), 'w'), indent=1)
+        EVD = os.environ.get('VF_EVIDENCE_DIR') or os.path.join(VERIF, 'evidence')
+        os.makedirs(EVD, exist_ok=True)
+        json.dump(evidence, open(os.path.join(EVD, prop.id + '.json'), 'w'), indent=1)
         return 2
     finally:
         if not keep:
